@@ -65,12 +65,21 @@ set_option maxRecDepth 1000000 in
 theorem h5_control_character : descTextOK 0 "a\x07b" = false ∧ readBack "a\x07b" = none := by decide
 
 set_option maxRecDepth 1000000 in
-/-- CARRIAGE RETURN: read back as a line feed -/
-theorem h5_carriage_return : descTextOK 0 "a\rb" = false ∧ ¬ Survives "a\rb" := by decide
+/-- CARRIAGE RETURN (fix D3, hunt3 C12/3): a block string would read it back as a line feed; the printer now writes the
+    description as a quoted string with `\r` escaped and the value survives.  It stays outside `descTextOK` only because
+    the text-level theorem is stated for block-string descriptions. -/
+theorem h5_carriage_return : descTextOK 0 "a\rb" = false ∧ Survives "a\rb" ∧ descTextOK 0 "a\nb" = true ∧
+    SdlPrintT.printDescription {} (some "a\rb") = T "\"a\\rb\"\n" := by decide
 
 set_option maxRecDepth 1000000 in
-/-- every line INDENTED (first line included): the common indentation of the following lines is removed -/
-theorem h5_common_indent : descTextOK 0 "  a\n  b" = false ∧ ¬ Survives "  a\n  b" := by decide
+/-- every line INDENTED (first line included; fix D1, hunt3 C12/1): in a block string the common indentation of the
+    following lines would be removed; the printer now writes the description as the quoted string `"  a\n  b"` (that
+    the value is read back is checked on the implementation in every run: corr/C12_text.py, description shapes; the
+    kernel evaluation through the lexer model is too slow); with an unindented later line the block form is kept and
+    the description is inside `descTextOK` -/
+theorem h5_common_indent : descTextOK 0 "  a\n  b" = false ∧
+    SdlPrintT.printDescription {} (some "  a\n  b") = T "\"  a\\n  b\"\n" ∧
+    descTextOK 0 "  a\n  b\nc" = true := by decide
 
 /-! ### finding H12: lines longer than the wrap width -/
 
